@@ -56,14 +56,23 @@ const FRAGS: &[Frag] = &[
     f("\\def\\abc{E3}", 0, 0, false, &["edge-name", "local"]),
     // FIRST and LAST element of every indexed piece of state: registers 0 and 32767 / 255 directly, through
     // aliases, and as the current value inside an open group (the outer value sits in the save stack)
-    f("\\count0=70 \\count32767=71 \\dimen0=7pt \\dimen32767=8pt \\skip0=7pt plus 1pt \\skip32767=8pt minus 1pt \\toks0={t0}\\toks255={t255}", 0, 0, false, &["first-last", "local"]),
+    f("\\count0=70 \\count32767=71 \\dimen0=7pt \\dimen32767=8pt \\skip0=7pt plus 1pt \\skip32767=8pt minus 1pt \\toks0={t0}\\toks255={t255}\\count32766=76 \\toks254={t254}", 0, 0, false, &["first-last", "local"]),
     f("\\countdef\\cy=0 \\cy=72 \\countdef\\cz=32767 \\cz=73 \\toksdef\\ty=0 \\ty={ty}\\toksdef\\tz=255 \\tz={tz}", 0, 0, false, &["first-last", "alias-variable", "local"]),
     f("{\\count0=74 \\count32767=75 \\dimen32767=9pt \\skip32767=9pt plus 2fil \\toks0={g0}\\toks255={g255}", 1, 0, true, &["first-last", "local"]),
     // code tables: characters 0, 127 (low table ends), 128 (high table begins), U+10FFFE (the largest texcraft accepts: its range check is [0, 1114111))
-    f("\\catcode0=11 \\catcode127=11 \\catcode128=11 \\catcode1114110=11 \\mathcode0=1 \\mathcode127=2 \\mathcode128=3 \\mathcode1114110=4 ", 0, 0, false, &["first-last", "high-code", "local"]),
+    f("\\catcode0=11 \\catcode127=11 \\catcode128=11 \\catcode1114110=11 \\catcode129=11 \\mathcode0=1 \\mathcode127=2 \\mathcode128=3 \\mathcode1114110=4 ", 0, 0, false, &["first-last", "high-code", "local"]),
     // streams 0 and 15 (stream 15 positioned after its first line), first and last element of an allocated array
     f("\\openin 0 f \\openin 15 g \\read 15 to \\rz ", 0, 0, false, &["first-last", "stream", "read", "local"]),
     f("\\arr 0=5 \\arr 2=6 ", 0, 0, false, &["first-last", "alloc", "local"]),
+    // integers on both sides of every width boundary of the binary formats (MessagePack fixint / 8 / 16 / 32 bits,
+    // bincode varint 250/251, 2^16, 2^32), largest dimensions, all glue orders, largest \\mathchardef and \\chardef
+    f("\\count100=127 \\count101=128 \\count102=250 \\count103=251 \\count104=255 \\count105=256 \\count106=65535 \\count107=65536 \\count108=2147483647 \\count109=-32 \\count110=-33 \\count111=-128 \\count112=-129 \\count113=-32768 \\count114=-32769 \\count115=-2147483647 \\dimen2=16383.99998pt \\dimen3=-16383.99998pt \\skip2=1pt plus 16383fill minus 1filll \\skip3=-1pt plus -2fil \\mathchardef\\i=32767 \\chardef\\h=1114110 ", 0, 0, false, &["width-boundary", "local"]),
+    // 3- and 4-byte characters in names, bodies and token lists, a non-ASCII active character; a stream on a file
+    // with a non-ASCII name, on an empty file and on a blank-only file
+    f("\\def\\€{€3}\\def\\😀{😀4}\\toks2={é€😀}\\catcode`\\√=13 \\def√{AE}", 0, 0, false, &["non-ascii", "local"]),
+    f("\\openin 5 fé \\openin 6 e \\openin 7 b ", 0, 0, false, &["non-ascii", "empty-file", "stream"]),
+    // every prefix at once, globally, inside a group
+    f("{\\global\\long\\outer\\def\\mq#1{q#1}", 1, 0, false, &["local"]),
     // a recoverable error: fatal in the default \\errorstopmode (no checkpoint then), recovered and RECORDED in the
     // state (errormode::Component::errors) after \\scrollmode
     f(RECOVERABLE_ERROR, 0, 0, false, &["recovered-error"]),
@@ -117,7 +126,7 @@ const FINDING_RECORDED_ERROR: &str = "D7b-json-recorded-error";
 const PRELUDE: &str = "\\countdef\\f=9 \\toksdef\\g=9 \\mathchardef\\i=1 \\chardef\\hh=72 \\newInt\\n \\newIntArray\\arr 3 ";
 
 /// Prints every target. Each item is safe whether or not the name is defined.
-const OBSERVE: &str = ";\\a;\\b;\\c\\hh;\\d\\zz{Z}\\zz;\\e;\\the\\f;\\the\\g;\\h;\\the\\i;\\m12.;\\newname;\\é;\\ab;\\abc;\\firstseeninq;\\me;\\gobble x;\\mp ab;\\mn123456789;\\mh x;\\md xy1.2;\\the\\count0 ;\\the\\count32767 ;\\the\\dimen0 ;\\the\\dimen32767 ;\\the\\skip0 ;\\the\\skip32767 ;\\the\\toks0 ;\\the\\toks255 ;\\the\\catcode0 ;\\the\\catcode127 ;\\the\\catcode128 ;\\the\\catcode1114110 ;\\the\\mathcode0 ;\\the\\mathcode127 ;\\the\\mathcode128 ;\\the\\mathcode1114110 ;\\ifeof 0 c\\else o\\fi;\\ifeof 15 c\\else o\\fi;\\rz;\\the\\arr 0 ;\\the\\arr 2 ;\\the\\n;\\the\\arr 1 ;\\r;\\ifeof 3 c\\else o\\fi;\\the\\count1 ;\\the\\dimen1 ;\\the\\skip1 ;\\the\\toks1 ;\\the\\count5 ;\\the\\toks6 ;\\the\\catcode`\\| ;\\the\\catcode`\\é ;\\the\\mathcode`\\k ;\\the\\mathcode`\\é ;\\the\\endlinechar ;\\the\\globaldefs ;\\the\\year ;\\probefont;~;|;";
+const OBSERVE: &str = ";\\a;\\b;\\c\\hh;\\d\\zz{Z}\\zz;\\e;\\the\\f;\\the\\g;\\h;\\the\\i;\\m12.;\\newname;\\é;\\ab;\\abc;\\firstseeninq;\\me;\\gobble x;\\mp ab;\\mn123456789;\\mh x;\\md xy1.2;\\the\\count0 ;\\the\\count32767 ;\\the\\dimen0 ;\\the\\dimen32767 ;\\the\\skip0 ;\\the\\skip32767 ;\\the\\toks0 ;\\the\\toks255 ;\\the\\catcode0 ;\\the\\catcode127 ;\\the\\catcode128 ;\\the\\catcode1114110 ;\\the\\mathcode0 ;\\the\\mathcode127 ;\\the\\mathcode128 ;\\the\\mathcode1114110 ;\\ifeof 0 c\\else o\\fi;\\ifeof 15 c\\else o\\fi;\\rz;\\the\\arr 0 ;\\the\\arr 2 ;\\the\\count32766 ;\\the\\toks254 ;\\the\\catcode129 ;\\the\\count100 ;\\the\\count101 ;\\the\\count102 ;\\the\\count103 ;\\the\\count104 ;\\the\\count105 ;\\the\\count106 ;\\the\\count107 ;\\the\\count108 ;\\the\\count109 ;\\the\\count110 ;\\the\\count111 ;\\the\\count112 ;\\the\\count113 ;\\the\\count114 ;\\the\\count115 ;\\the\\dimen2 ;\\the\\dimen3 ;\\the\\skip2 ;\\the\\skip3 ;\\€;\\😀;\\the\\toks2 ;√;\\ifeof 5 c\\else o\\fi;\\ifeof 6 c\\else o\\fi;\\ifeof 7 c\\else o\\fi;\\mq x;\\the\\n;\\the\\arr 1 ;\\r;\\ifeof 3 c\\else o\\fi;\\the\\count1 ;\\the\\dimen1 ;\\the\\skip1 ;\\the\\toks1 ;\\the\\count5 ;\\the\\toks6 ;\\the\\catcode`\\| ;\\the\\catcode`\\é ;\\the\\mathcode`\\k ;\\the\\mathcode`\\é ;\\the\\endlinechar ;\\the\\globaldefs ;\\the\\year ;\\probefont;~;|;";
 
 /// two plain lines first: a restored lexer that forgets it is past its first line merges them
 const FILE_F: &str = "r1\nr2\n{r3\nr4}\nr5\n";
@@ -135,6 +144,14 @@ fn observer(open_conds: i32, open_groups: i32) -> Vec<String> {
         lines.push(format!("}}{OBSERVE}"));
     }
     lines
+}
+
+fn join_with(lines: &[String], eol: &str, final_eol: bool) -> String {
+    let mut s = lines.join(eol);
+    if final_eol && !lines.is_empty() {
+        s.push_str(eol);
+    }
+    s
 }
 
 fn join(lines: &[String]) -> String {
@@ -172,6 +189,11 @@ struct Case {
     json_boundaries: Vec<usize>,
     files: &'static [(&'static str, &'static str)],
     sel: Value,
+    /// line terminator written after every line, and whether the LAST line of each pushed source gets one
+    eol: &'static str,
+    final_eol: bool,
+    /// false: the VM has no prelude line (bare programs)
+    bare: bool,
 }
 
 fn fresh(files: &[(&str, &str)]) -> Box<vtex::Vm> {
@@ -287,11 +309,11 @@ fn execute_case(c: &Case, acc: Option<&mut Acc>) -> Vec<Failure> {
     // single-source run of the whole program
     let whole = vcore::catch(|| {
         let mut vm = fresh(c.files);
-        vtex::run(&mut vm, &join(&all))
+        vtex::run(&mut vm, &join_with(&all, c.eol, c.final_eol))
     });
     for k in c.first_boundary..=c.p.len() {
-        let p1 = join(&all[..k]);
-        let p2 = join(&all[k..]);
+        let p1 = join_with(&all[..k], c.eol, c.final_eol);
+        let p2 = join_with(&all[k..], c.eol, c.final_eol);
         local.count("checkpoints");
         // P1 in a fresh VM
         let mut vm = fresh(c.files);
@@ -513,6 +535,9 @@ fn count_state(frs: &[&Frag], acc: &mut Acc) -> bool {
         ("macro-params", "macro_with_parameters"),
         ("empty-name", "empty_control_sequence_name_defined"),
         ("first-last", "first_or_last_element_of_indexed_state_set"),
+        ("width-boundary", "integer_width_boundary_values_set"),
+        ("non-ascii", "three_and_four_byte_characters_in_state"),
+        ("empty-file", "stream_on_empty_or_blank_file"),
         ("macro-shape", "macro_with_an_empty_part_defined"),
         ("edge-name", "non_ascii_or_prefix_name_defined"),
     ] {
@@ -523,7 +548,21 @@ fn count_state(frs: &[&Frag], acc: &mut Acc) -> bool {
     !groups.is_empty() || conds > 0 || any_def
 }
 
+#[derive(Clone, Copy)]
+struct Variant {
+    eol: &'static str,
+    final_eol: bool,
+    bare: bool,
+}
+const STANDARD: Variant = Variant { eol: "\n", final_eol: true, bare: false };
+/// Reads only what is safe without the prelude line.
+const BARE_OBSERVE: &str = ";\\a;\\b;\\me;~;|;\\the\\count1 ;\\the\\count32767 ;\\the\\toks1 ;\\the\\catcode`\\é ;\\the\\globaldefs ;\\ifeof 3 c\\else o\\fi;\\probefont;";
+
 fn frag_case(family: &'static str, alphabet: &[usize], digits: &[u64], json_last: bool) -> Option<(Case, Vec<&'static Frag>)> {
+    frag_case_v(family, alphabet, digits, json_last, STANDARD)
+}
+
+fn frag_case_v(family: &'static str, alphabet: &[usize], digits: &[u64], json_last: bool, v: Variant) -> Option<(Case, Vec<&'static Frag>)> {
     let frs: Vec<&'static Frag> = digits.iter().map(|d| &FRAGS[alphabet[*d as usize]]).collect();
     let (mut g, mut c) = (0, 0);
     for fr in &frs {
@@ -533,11 +572,21 @@ fn frag_case(family: &'static str, alphabet: &[usize], digits: &[u64], json_last
             return None;
         }
     }
-    let mut p = vec![PRELUDE.to_string()];
+    let mut p = if v.bare { vec![] } else { vec![PRELUDE.to_string()] };
     p.extend(frs.iter().map(|f| f.text.to_string()));
     let n = p.len();
+    if v.bare {
+        // no prelude: the fresh VM itself (boundary 0) and the state after each fragment are checkpointed
+        let mut q = vec![BARE_OBSERVE.to_string()];
+        q.extend((0..c).map(|_| format!("\\fi {BARE_OBSERVE}")));
+        q.extend((0..g).map(|_| format!("}}{BARE_OBSERVE}")));
+        return Some((
+            Case { family, p, q, first_boundary: 0, json_boundaries: if json_last { (0..=n).collect() } else { vec![] }, files: &[("f.tex", FILE_F)], sel: json!({"alphabet": alphabet, "digits": digits, "json_last": json_last, "eol": v.eol, "final_eol": v.final_eol, "bare": true}), eol: v.eol, final_eol: v.final_eol, bare: true },
+            frs,
+        ));
+    }
     Some((
-        Case { family, p, q: observer(c, g), first_boundary: 2, json_boundaries: if json_last { vec![n] } else { vec![] }, files: &[("f.tex", FILE_F), ("g.tex", "g1\ng2\n")], sel: json!({"alphabet": alphabet, "digits": digits, "json_last": json_last}) },
+        Case { family, p, q: observer(c, g), first_boundary: 2, json_boundaries: if json_last { vec![n] } else { vec![] }, files: &[("f.tex", FILE_F), ("g.tex", "g1\ng2\n"), ("fé.tex", "é1\n"), ("e.tex", ""), ("b.tex", "  \n")], sel: json!({"alphabet": alphabet, "digits": digits, "json_last": json_last, "eol": v.eol, "final_eol": v.final_eol, "bare": false}), eol: v.eol, final_eol: v.final_eol, bare: false },
         frs,
     ))
 }
@@ -605,7 +654,115 @@ fn stream_case(digits: &[u64]) -> Option<Case> {
         }
     }
     let tail = format!("{}[\\x][\\y]\\ifeof 3 c\\else o\\fi \\ifeof 4 c\\else o\\fi ", "}".repeat(depth as usize));
-    Some(Case { family: "open-read-streams", p: seq.iter().map(|s| s.to_string()).collect(), q: vec![tail], first_boundary: 1, json_boundaries: vec![], files: STREAM_FILES, sel: json!({"digits": digits}) })
+    Some(Case { family: "open-read-streams", p: seq.iter().map(|s| s.to_string()).collect(), q: vec![tail], first_boundary: 1, json_boundaries: vec![], files: STREAM_FILES, sel: json!({"digits": digits}), eol: "\n", final_eol: true, bare: false })
+}
+
+// ---------------------------------------------------------------- the \dump primitive (job.rs: the stdlib's own route to a format file)
+
+fn builtins_with_dump() -> std::collections::HashMap<&'static str, vtex::texlang::command::BuiltIn<vtex::HState>> {
+    let mut m = vtex::builtins();
+    m.insert("dump", vtex::texlang_stdlib::job::get_dump());
+    m
+}
+
+fn fresh_with_dump(files: &[(&str, &str)]) -> Box<vtex::Vm> {
+    let mut vm = vtex::texlang::vm::VM::<vtex::HState>::new_with_built_in_commands(builtins_with_dump());
+    vm.state.time = vtex::texlang_stdlib::time::Component::new_with_values(0, 1, 1, 2000);
+    vtex::prepare(&mut vm);
+    for (n, c) in files {
+        vm.state.env.fs.borrow().add(n, c);
+    }
+    Box::new(vm)
+}
+
+/// P = prelude + fragments, then `\endlinechar=-1` and, as the last token of the last line, `\dump` (so no input is
+/// pending when the VM serialises itself; \dumpValidate=1 makes the primitive load its own output again).
+/// Format 1 (JSON): the harness loads the written file and continues with Q in the loaded VM and in the original.
+/// Formats 0 (MessagePack) and 2 (bincode): the dump with its self-validation must succeed.
+fn dump_case(idx: u64, alphabet: &[usize], digits: &[u64], fmt: usize, acc: &mut Acc) {
+    let (case, _) = match frag_case("dump-primitive", alphabet, digits, false) {
+        Some(c) => c,
+        None => {
+            acc.skipped += 1;
+            return;
+        }
+    };
+    acc.eval();
+    acc.nontrivial();
+    acc.count("dump_primitive_runs");
+    let mut p1 = case.p.clone();
+    p1.push("\\endlinechar=-1 ".into());
+    p1.push(format!("\\dumpFormat={fmt} \\dumpValidate=1 \\dump"));
+    let p1 = join_with(&p1, "\n", false);
+    let q = join(&case.q);
+    let sel = json!({"alphabet": alphabet, "digits": digits, "dump_format": fmt});
+    let cj = |extra: &str| json!({"family": "dump-primitive", "sel": sel, "P1": p1, "Q": q, "what": extra});
+    let mut vm = fresh_with_dump(case.files);
+    let o1 = match vcore::catch(|| vtex::run(&mut vm, &p1)) {
+        Ok(o) => o,
+        Err(p) if p.cutoff => {
+            acc.cutoffs += 1;
+            return;
+        }
+        Err(p) => {
+            acc.fail(idx, cj("P1 with \\dump"), "\\dump serialises the VM (and, with \\dumpValidate=1, loads it again)", p.describe(), format!("\\dump panics (\\dumpFormat={fmt})"));
+            return;
+        }
+    };
+    if let Some(e) = &o1.err {
+        // fragments that cannot run on their own (a \read without \openin …) end P1 before the dump
+        let alone = vcore::catch(|| vtex::run(&mut fresh_with_dump(case.files), &join(&case.p))).ok().and_then(|r| r.err);
+        if alone.is_some() {
+            acc.skipped += 1;
+            return;
+        }
+        acc.fail(idx, cj("P1 with \\dump"), "\\dump succeeds", format!("fatal error: {e}"), format!("\\dump fails (\\dumpFormat={fmt})"));
+        return;
+    }
+    if fmt != 1 {
+        acc.class(&format!("\\dump format {fmt}: written and self-validated"));
+        return;
+    }
+    let name = std::path::PathBuf::from("jobname.fmt.json");
+    let bytes = {
+        let fs = vm.state.env.fs.borrow();
+        let files = fs.files.borrow();
+        files.get(&name).cloned().or_else(|| files.get(&std::path::Path::new(vtex::VFS_ROOT).join(&name)).cloned())
+    };
+    let bytes = match bytes {
+        Some(b) => b,
+        None => {
+            acc.fail(idx, cj("looking for jobname.fmt.json"), "\\dump wrote jobname.fmt.json through the file system", "no such file", "\\dump wrote nothing");
+            return;
+        }
+    };
+    let restored = vcore::catch(|| {
+        let mut d = serde_json::Deserializer::from_slice(&bytes);
+        let mut vm2 = vtex::texlang::vm::VM::<vtex::HState>::deserialize_with_built_in_commands(&mut d, builtins_with_dump()).unwrap();
+        vtex::prepare(&mut vm2);
+        vm2.state.env.fs = vm.state.env.fs.clone();
+        Box::new(vm2)
+    });
+    let mut vm2 = match restored {
+        Ok(v) => v,
+        Err(p) => {
+            acc.fail(idx, cj("loading jobname.fmt.json"), "the dumped file loads", p.describe(), "the file written by \\dump cannot be loaded");
+            return;
+        }
+    };
+    let reference = vcore::catch(|| vtex::run(&mut vm, &q));
+    let got = vcore::catch(|| vtex::run(&mut vm2, &q));
+    match (reference, got) {
+        (Ok(r), Ok(g)) => {
+            if r != g {
+                acc.fail(idx, cj("continuation after loading the dump"), r.show(), g.show(), "the VM loaded from the \\dump file behaves differently from the VM that dumped");
+            } else {
+                acc.class("\\dump format 1: loaded VM continues identically");
+            }
+        }
+        (Ok(r), Err(p)) => acc.fail(idx, cj("continuation after loading the dump"), r.show(), p.describe(), "the VM loaded from the \\dump file panics"),
+        (Err(_), _) => acc.skipped += 1,
+    }
 }
 
 // ---------------------------------------------------------------- main
@@ -620,8 +777,13 @@ fn main() {
             stream_case(&digits)
         } else {
             let alphabet: Vec<usize> = case["sel"]["alphabet"].as_array().map(|a| a.iter().filter_map(|x| x.as_u64().map(|v| v as usize)).collect()).unwrap_or_default();
-            frag_case("replay", &alphabet, &digits, case["sel"]["json_last"].as_bool().unwrap_or(false)).map(|(mut c, _)| {
-                c.first_boundary = case["first_boundary"].as_u64().unwrap_or(2) as usize;
+            if let Some(fmt) = case["sel"]["dump_format"].as_u64() {
+                dump_case(0, &alphabet, &digits, fmt as usize, &mut acc);
+                ctx.finish_replay(acc);
+            }
+            let v = Variant { eol: if case["sel"]["eol"] == "\r\n" { "\r\n" } else { "\n" }, final_eol: case["sel"]["final_eol"].as_bool().unwrap_or(true), bare: case["sel"]["bare"].as_bool().unwrap_or(false) };
+            frag_case_v("replay", &alphabet, &digits, case["sel"]["json_last"].as_bool().unwrap_or(false), v).map(|(mut c, _)| {
+                c.first_boundary = case["first_boundary"].as_u64().unwrap_or(if v.bare { 0 } else { 2 }) as usize;
                 c
             })
         };
@@ -633,6 +795,17 @@ fn main() {
             }
         }
         ctx.finish_replay(acc);
+    }
+
+    // every fragment must be able to run (after the prelude) on its own; otherwise its checkpoints would silently
+    // never be taken. Exempt: closers, and fragments that are meant to need earlier state or to fail.
+    for fr in FRAGS.iter().filter(|f| f.dg >= 0 && f.dc >= 0 && f.text != RECOVERABLE_ERROR && f.text != "\\read 3 to \\r ") {
+        let r = vcore::catch(|| vtex::run(&mut fresh(&[("f.tex", FILE_F), ("g.tex", "g1\ng2\n"), ("fé.tex", "é1\n"), ("e.tex", ""), ("b.tex", "  \n")]), &format!("{PRELUDE}\n{}\n", fr.text)));
+        match r {
+            Ok(o) if o.err.is_none() => {}
+            Ok(o) => ctx.machinery_error(format!("fragment `{}` does not run on its own: {:?}", fr.text, o.err)),
+            Err(p) => ctx.machinery_error(format!("fragment `{}` panics on its own: {}", fr.text, p.describe())),
+        }
     }
 
     ctx.assume("a checkpoint is taken only when run(P1) returned without a fatal error and with all input consumed (the property's precondition); programs whose P1 ends in an error are skipped at that boundary");
@@ -696,7 +869,54 @@ fn main() {
         });
     }
 
+    // F5: programs without the prelude line, including the checkpoint of a completely fresh VM
+    {
+        let alphabet = all.clone();
+        let k = alphabet.len() as u64;
+        ctx.family("bare-programs", &format!("every program of 1 fragment WITHOUT the prelude line ({k} fragments): checkpoint of the fresh VM (before any input) and after the fragment; three formats; canonical-JSON comparison at both; observer restricted to what is readable without the prelude"), k, |idx, acc| {
+            match frag_case_v("bare-programs", &alphabet, &[idx], true, Variant { bare: true, ..STANDARD }) {
+                None => acc.skipped += 1,
+                Some((case, _)) => {
+                    acc.count("fresh_vm_checkpointed");
+                    run_case(idx, &case, 1, acc);
+                    if idx == 0 {
+                        acc.sample(idx, || json!({"family": "bare-programs", "P": case.p, "Q": case.q, "checkpoints_after_lines": [0, 1]}));
+                    }
+                }
+            }
+        });
+    }
+    // F6: other line terminators and a last line without terminator
+    {
+        let alphabet = core.clone();
+        let k = alphabet.len() as u64;
+        const VARIANTS: [Variant; 3] = [Variant { eol: "\n", final_eol: false, bare: false }, Variant { eol: "\r\n", final_eol: true, bare: false }, Variant { eol: "\r\n", final_eol: false, bare: false }];
+        ctx.family("pairs-core-line-endings", &format!("every program of 2 core fragments ({k} fragments) x 3 ways of ending lines: LF without terminator on the last line of each pushed source, CR LF, CR LF without terminator on the last line; checkpoint after each line; three formats"), k * k * 3, |idx, acc| {
+            let d = vcore::digits(idx, &[3, k, k]);
+            match frag_case_v("pairs-core-line-endings", &alphabet, &d[1..], false, VARIANTS[d[0] as usize]) {
+                None => acc.skipped += 1,
+                Some((case, _)) => {
+                    acc.count(if d[0] == 0 { "source_without_final_line_terminator" } else { "source_with_cr_lf" });
+                    run_case(idx, &case, 1, acc);
+                }
+            }
+        });
+    }
+    // F7: the stdlib's own \\dump primitive
+    {
+        let alphabet = all.clone();
+        let k = alphabet.len() as u64;
+        ctx.family("dump-primitive", &format!("every program of 1 fragment ({k} fragments) followed by \\endlinechar=-1 and a line that ends in \\dump, with \\dumpValidate=1, for \\dumpFormat 0 (MessagePack), 1 (JSON), 2 (bincode); the JSON file is loaded by the harness and the observer runs in the loaded and in the dumping VM"), k * 3, |idx, acc| {
+            let d = vcore::digits(idx, &[k, 3]);
+            dump_case(idx, &alphabet, &d[..1], d[1] as usize, acc);
+        });
+    }
+
     for (c, m) in [
+        ("fresh_vm_checkpointed", "a VM that has not read any input is checkpointed"),
+        ("source_without_final_line_terminator", "the last line of each pushed source has no line terminator"),
+        ("source_with_cr_lf", "lines end in CR LF"),
+        ("dump_primitive_runs", "the \\dump primitive serialises the VM from inside a run"),
         ("checkpoints", "line boundaries at which a checkpoint was taken"),
         ("round_trips", "serialise+deserialise round trips executed"),
         ("json_roundtrips_compared", "restored VMs compared with the original as canonical JSON"),
@@ -715,6 +935,9 @@ fn main() {
         ("font_selected", "a font selector ran before the checkpoint"),
         ("allocated_variable", "\\newInt / \\newIntArray variable assigned"),
         ("macro_with_parameters", "macro with delimited and undelimited parameters"),
+        ("integer_width_boundary_values_set", "register values on both sides of 2^7, 250/251, 2^8, 2^16, 2^31, -2^5, -2^7, -2^15, largest dimensions, fil/fill/filll set before the checkpoint"),
+        ("three_and_four_byte_characters_in_state", "3- and 4-byte characters in control-sequence names, macro bodies, token lists, an active character or a file name before the checkpoint"),
+        ("stream_on_empty_or_blank_file", "a read stream on an empty file and on a blank-only file is open at the checkpoint"),
         ("first_or_last_element_of_indexed_state_set", "register 0 / 32767 / 255, code-table entry 0 / 127 / 128 / U+10FFFE, stream 0 / 15 or array element first / last set before the checkpoint"),
         ("macro_with_an_empty_part_defined", "a macro with empty replacement text, prefix-only, 9 parameters or ## defined before the checkpoint"),
         ("empty_control_sequence_name_defined", "the empty control-sequence name is defined before the checkpoint and lexed again from source text after it"),
